@@ -86,6 +86,10 @@ where
             .map_err(|e| invalid(format!("invalid matrix P: {}", e)))?;
         A.check_format()
             .map_err(|e| invalid(format!("invalid matrix A: {}", e)))?;
+        // check_format tolerates a nonzero first column pointer, the solver does not
+        if P.colptr.first() != Some(&0) || A.colptr.first() != Some(&0) {
+            return Err(invalid("invalid matrix column pointers".to_string()));
+        }
         settings.validate().map_err(invalid)?;
         for cone in cones.iter() {
             // same test as the assertions in GenPowerCone::new
